@@ -93,8 +93,8 @@ def gather(topo, obs, hist_size, extra_events=None):
     n = (max(ids) + 1) if ids else 0
     lines = [{"ev": "hdr", "n": n, "hist": hist_size}]
     for e in trace:
-        if e["ev"] in ("ctx_new", "state", "connect_end", "drop", "gc"):
-            lines.append({k: v for k, v in e.items() if k in ("ev", "id", "st", "ok", "history_ids", "alive_len")})
+        if e["ev"] in ("ctx_new", "state", "connect_end", "drop", "gc_take", "gc"):
+            lines.append({k: v for k, v in e.items() if k in ("ev", "id", "st", "ok", "history_ids", "alive_len", "n")})
         elif e["ev"] == "api_end" and extra_events and extra_events.get(e["seq"]):
             lines.append(extra_events[e["seq"]])
     # a client source port may be used by more than one connection of a run: the scenarios run one after the other, so the
@@ -351,6 +351,63 @@ def metrics_record(text, entries):
     return {"ev": "metrics", "gc_count": gc, "m_in": m_in or {"-": 0}, "m_out": m_out or {"-": 0}, "rec_in": rec_in or {"-": 0}, "rec_out": rec_out or {"-": 0}}
 
 
+def c16_churn(v, pid, wd, seconds):
+    alog = os.path.join(wd, "access_churn.log")
+    if os.path.exists(alog):
+        os.remove(alog)
+    topo = scen.Topology(wd, "c16_churn", splice=True, special=True, history=1000000, access_log=alog).start()
+    port = topo.ports[("http", "deny")]
+    made = [0] * 8
+    end = time.time() + seconds
+
+    def worker(i):
+        while time.time() < end:
+            try:
+                s = socket.create_connection(("127.0.0.1", port), timeout=5)
+                s.sendall(b"CONNECT 127.0.0.1:9 HTTP/1.1\r\n\r\n")
+                s.settimeout(5)
+                while s.recv(4096):
+                    pass
+                s.close()
+                made[i] += 1
+            except OSError:
+                pass
+    ths = [threading.Thread(target=worker, args=(i,)) for i in range(8)]
+    for t in ths:
+        t.start()
+    for t in ths:
+        t.join()
+    time.sleep(2.6)          # two collector ticks
+    st, body = topo.p1.api(topo.api1, "/history", timeout=30)
+    hist_ids = [e["id"] for e in json.loads(body)]
+    st, body = topo.p1.api(topo.api1, "/live", timeout=30)
+    live_ids = [e["id"] for e in json.loads(body)]
+    topo.p1.api(topo.api1, "/logrotate", method="POST", body="")
+    time.sleep(0.5)
+    alive = topo.p1.alive()
+    panic = topo.p1.panicked()
+    topo.stop()
+    if panic or not alive:
+        v.report("life/proxy-died", str(panic)[:300], {"tag": "churn"})
+    log_ids = []
+    if os.path.exists(alog):
+        for ln in open(alog, "rb").read().decode("utf-8", "replace").splitlines():
+            if ln.strip():
+                log_ids.append(json.loads(ln)["id"])
+    trace = topo.p1.trace()
+    created = [e["id"] for e in trace if e["ev"] == "ctx_new"]
+    res = {"made": sum(made), "contexts": len(created), "access_log_lines": len(log_ids), "history_entries": len(hist_ids), "still_live": len(live_ids)}
+    if sum(made) < 300:
+        raise vlib.ToolError("churn phase too slow to mean anything: %s" % res)
+    # the model-based verdict: lifecycle events + the two snapshots + the log as one TraceLife trace
+    lines, _, _ = gather(topo, [], 1000000)
+    lines.append({"ev": "api_live", "ids": sorted(live_ids)})
+    lines.append({"ev": "api_history", "ids": hist_ids})
+    lines.append({"ev": "log_lines", "ids": log_ids})
+    validate(v, pid, wd, "churn", lines, [], cfg="TraceLifeLite.cfg")
+    return res
+
+
 def run_c16(pid, tier, t0):
     v = vlib.Verdicts(pid)
     wd = vlib.workdir(pid.lower())
@@ -486,6 +543,11 @@ def run_c16(pid, tier, t0):
         if validate(v, pid, wd, tag, lines, obs, cfg="TraceLifeLite.cfg"):      # replies are C06's subject; without them the search is linear
             ntr += 1
         samples.append({"history_size": hist, "connections": n, "api": [r for _, r in api_results][:2], "record": obs[0] if obs else None})
+    # sustained churn: connections keep ending while the collector is at work (it hands each record to the log task through a
+    # bounded channel, so a pass takes a while): every one of them must still be reported exactly once
+    churn = c16_churn(v, pid, wd, 4.0 if thorough else 1.2)
+    ntr += 1
+    nconn += churn["made"]
     # growth beyond C16: Prometheus counters as a refinement of the records (MetricsObs.tla); reported, never a violation
     mp = os.path.join(wd, "metrics.ndjson")
     vlib.write_ndjson(mp, [{k: v for k, v in r.items() if k not in ("ev", "config")} for r in metrics_recs])
@@ -505,7 +567,7 @@ def run_c16(pid, tier, t0):
                 "upstream proxy, denied, no rule, refused, bad password, garbage handshake, aborted mid-tunnel, unsupported feature) from 8 "
                 "threads against real processes with history sizes incl. 0 and smaller than the burst; lifecycle events + /live and /history "
                 "snapshots at quiescent points + access log lines + per-connection record checks are one TraceLife trace per configuration",
-        "configurations": [{"history": h, "splice": s, "connections": n} for h, s, n in configs], "log_rotations_during_bursts": rotations, "exhaustive": False, "checker_cmd": mcs[0].cmd,
+        "churn": churn, "configurations": [{"history": h, "splice": s, "connections": n} for h, s, n in configs], "log_rotations_during_bursts": rotations, "exhaustive": False, "checker_cmd": mcs[0].cmd,
     }, ["API snapshots are taken when the driver has no connection in transition (quiescent), so they must equal the model's sets exactly",
         "UDP sessions are covered by C10's runs"])
     return v.finish(ev, t0)
